@@ -165,9 +165,9 @@ def tla_seq(text):
     return "<<" + ", ".join('"%s"' % c for c in text) + ">>"
 
 
-SETTINGS_S = [{"m": "inherit"}, {"m": "auto"}, {"m": "off"}, {"m": "name", "n": ["P"]}]
+SETTINGS_S = [{"m": "inherit"}, {"m": "auto"}, {"m": "off"}, {"m": "name", "n": ["P", "q"]}]
 SETTINGS_F = [{"m": "inherit"}, {"m": "auto"}, {"m": "off"}, {"m": "name", "n": ["N"]}]
-ALL_NAMES = ["A", "P_A", "N", "SUB_B", "P_SUB_B", "B", "P_B", "SUB_DEEP_C", "P_SUB_DEEP_C", "DEEP_C", "P_DEEP_C", "C"]
+ALL_NAMES = ["A", "Pq_A", "N", "SUB_B", "Pq_SUB_B", "B", "Pq_B", "SUB_DEEP_C", "Pq_SUB_DEEP_C", "DEEP_C", "Pq_DEEP_C", "C"]
 
 
 def schema_from_settings(g):
